@@ -6,7 +6,7 @@ open Watch
 
 /-- script state of one watcher case: the model plus which files exist (creation order irrelevant) -/
 structure WatchSt where
-  w : W := { suffix := Gen.watchSuffix, selectsCtx := Gen.watchHandoffSelectsCtx }
+  w : W := { suffix := Gen.watchSuffix, selectsCtx := Gen.watchHandoffSelectsCtx, hasCloser := Gen.watchCloserGoroutine }
   started : Bool := false
   deriving Inhabited
 
@@ -39,8 +39,8 @@ def WatchSt.line (s : WatchSt) (toks : List String) : WatchSt × Option String :
       ({ s with w := w' }, some (if k > 0 then "some" else if w'.pc = .done then "closed" else "zero"))
   | ["w.cancel"] => ({ s with w := settleAll (step s.w .cancel) }, none)
   | ["w.stopped", _] =>
-    let w := settleAll s.w
-    ({ s with w := w }, some (if w.pc = .done then "stopped" else "running"))
+    let w := closeW (settleAll s.w)
+    ({ s with w := w }, some (if w.pc = .done then (if w.watcherOpen then "leaked" else "stopped") else "running"))
   | ["w.closed", _] =>
     -- the consumer reads until the stream is closed
     let (w', _) := drainAll (settleAll s.w)
